@@ -9,11 +9,18 @@ package main
 //     thorough tier, every schedule with ≤ 2 preemptions in the quick tier;
 //  C. curated lifecycle scenarios (create / close / recycle / flush) with every interleaving of a
 //     short thread against a long one;
-//  D. seeded random programs (2–3 threads, 4 in thorough; 2 pairs × 2 directions; FlushAll) with
-//     random sticky schedules and with all ≤ 2-preemption schedules.
+//  D. seeded random programs (2–3 threads, 4 in thorough; 2 pairs × 2 directions; FlushAll,
+//     FlushWithOptions, out-of-order `late` segments) with random sticky schedules and with all
+//     ≤ 2-preemption schedules;
+//  E. age-based flush (`flushold`) against queued out-of-order segments and a concurrent closer /
+//     creator / second flusher: 2 threads × ≤ 3 ops × 2 keys, EVERY schedule.  The schedules are
+//     enumerated exactly (no duplicates, nothing skipped) by a depth-first search that runs the real
+//     code: one run per maximal schedule, the alternatives at every step are the goroutines the
+//     controller found enabled there.
 
 import (
 	"fmt"
+	"os"
 	"strings"
 
 	"verif/harness/lib"
@@ -98,6 +105,60 @@ func twoPreempt(l0, l1 int, f func([]int)) {
 	}
 }
 
+// exploreAll emits EVERY maximal schedule of the program pair `p` (any number of goroutines): a
+// stateless depth-first search over the schedule tree of the real code.  A run with schedule prefix
+// `pre` continues with the controller's fair round-robin; its trace tells, for every step, which
+// goroutine ran and which others were enabled; every (step ≥ len(pre), other enabled goroutine) is a
+// new prefix.  Each maximal schedule is the default continuation of exactly one prefix.  At most
+// `max` schedules are emitted (0 = no bound); returns the number emitted and whether the bound cut.
+func exploreAll(e *caseEmitter, p [][]string, max int) (int, bool) {
+	curPkg, nThreads = e.pkg, len(p)
+	progs = make([][]item, len(p))
+	for t, pr := range p {
+		for _, w := range pr {
+			it, ok := parseItem(w)
+			if !ok {
+				panic("generator: bad item " + w)
+			}
+			progs[t] = append(progs[t], it)
+		}
+	}
+	n := 0
+	cut := false
+	stack := [][]int{nil}
+	for len(stack) > 0 {
+		pre := stack[len(stack)-1]
+		stack = stack[:len(stack)-1]
+		if max > 0 && n >= max {
+			cut = true
+			break
+		}
+		runSchedule(pre)
+		tr := lastTrace
+		full := make([]int, len(tr))
+		for i, st := range tr {
+			full[i] = st.tid
+		}
+		e.one(p, full)
+		n++
+		if len(tr) > 200 { // runaway (a mutated tree that loops): do not branch further
+			continue
+		}
+		for i := len(tr) - 1; i >= len(pre); i-- {
+			for t := len(p) - 1; t >= 0; t-- {
+				if t != tr[i].tid && tr[i].enabled&(1<<uint(t)) != 0 {
+					alt := make([]int, i+1)
+					copy(alt, full[:i])
+					alt[i] = t
+					stack = append(stack, alt)
+				}
+			}
+		}
+	}
+	reset()
+	return n, cut
+}
+
 func kindsOf(pkg string) []string {
 	if pkg == "asm" {
 		return []string{"syn", "fin", "rst"}
@@ -110,6 +171,8 @@ func progLen(p []string) int {
 	for _, it := range p {
 		if it == "flush" {
 			n += 2 + 3*2
+		} else if strings.HasPrefix(it, "flushold") {
+			n += 2 + 4*2
 		} else {
 			n += stepsPerPkt
 		}
@@ -120,7 +183,7 @@ func progLen(p []string) int {
 // probeReasmPkg runs the two-directions race on the real code: "reasm0" if the FIXME panic fires.
 func probeReasmPkg() string {
 	curPkg, nThreads = "reasm0", 2
-	progs = [][]item{{{pair: 0, dir: 0, kind: "syn"}}, {{pair: 0, dir: 1, kind: "syn"}}}
+	progs = [][]item{{{pair: 0, dir: 0, kind: "syn", ts: kindTs0}}, {{pair: 0, dir: 1, kind: "syn", ts: kindTs0}}}
 	out := runSchedule([]int{0, 1, 0, 1})
 	reset()
 	if strings.Contains(out, "P@") {
@@ -131,6 +194,7 @@ func probeReasmPkg() string {
 
 func gen(r *lib.Rand, tier string, emit func(string)) {
 	thorough := tier == "thorough"
+	dbgGen = os.Getenv("POOL_GEN_DEBUG") != ""
 	reasmPkg := probeReasmPkg()
 	for _, pkg := range []string{"asm", reasmPkg} {
 		e := &caseEmitter{emit: emit, pkg: pkg}
@@ -188,6 +252,8 @@ func gen(r *lib.Rand, tier string, emit func(string)) {
 				twoPreempt(l0, l1, func(s []int) { e.one(p, s) })
 			}
 		}
+		// E
+		genFlushOld(e, pkg, thorough)
 		// D
 		nRand := 1500
 		if thorough {
@@ -203,14 +269,21 @@ func gen(r *lib.Rand, tier string, emit func(string)) {
 			for t := range p {
 				n := 1 + r.Intn(4)
 				for j := 0; j < n; j++ {
-					if r.Chance(8) {
+					if r.Chance(6) {
 						p[t] = append(p[t], "flush")
+					} else if r.Chance(10) {
+						T := []int{2, 4, 5, 9}[r.Intn(4)]
+						p[t] = append(p[t], fmt.Sprintf("flushold:%d:%d", T, []int{0, T, 9}[r.Intn(3)]))
 					} else {
 						pair := 0
 						if r.Chance(30) {
 							pair = 1
 						}
-						p[t] = append(p[t], fmt.Sprintf("%d:%d:%s", pair, r.Intn(2), kinds[r.Intn(len(kinds))]))
+						kind := kinds[r.Intn(len(kinds))]
+						if r.Chance(22) {
+							kind = []string{"late1", "late4", "late7"}[r.Intn(3)]
+						}
+						p[t] = append(p[t], fmt.Sprintf("%d:%d:%s", pair, r.Intn(2), kind))
 					}
 				}
 				tot += progLen(p[t])
@@ -241,3 +314,87 @@ func gen(r *lib.Rand, tier string, emit func(string)) {
 		}
 	}
 }
+
+// genFlushOld: family E.  Keys: A = 0:0, A' = 0:1 (reassembly: the other direction of the same
+// connection; classic: another connection), B = 1:0.
+func genFlushOld(e *caseEmitter, pkg string, thorough bool) {
+	asm := pkg == "asm"
+	n0 := e.n
+	cuts := 0
+	run := func(p [][]string) {
+		max := 4000
+		if thorough {
+			max = 60000
+		}
+		if _, cut := exploreAll(e, p, max); cut {
+			cuts++
+		}
+	}
+	closers := []string{"0:0:fin", "0:0:syn", "0:0:late2", "1:0:syn"}
+	if asm {
+		closers = append(closers, "0:0:rst")
+	} else {
+		closers = append(closers, "0:1:fin", "0:1:late2")
+	}
+	flushers := []string{"flushold:9:0", "flushold:9:9", "flushold:2:9"}
+	if thorough {
+		flushers = append(flushers, "flushold:6:6", "flushold:2:0", "flushold:5:5", "flush")
+	}
+	// E1: thread 0 sets a connection up (started or not) with a queued out-of-order segment, then a
+	// closer / another packet; thread 1 is the flusher.
+	// (late2 against T = 2: a page seen exactly at T is NOT older than T)
+	setups := [][]string{{"0:0:syn", "0:0:late1"}, {"0:0:late1", "0:0:syn"}, {"0:0:late1", "0:0:late2"}}
+	if !asm {
+		setups = append(setups, []string{"0:0:syn", "0:1:late1"}, []string{"0:0:late1", "0:1:late1"})
+	} else {
+		setups = append(setups, []string{"0:0:late1", "0:0:rst"}, []string{"0:0:late2", "0:0:syn"})
+	}
+	for _, su := range setups {
+		for _, cl := range closers {
+			for _, fl := range flushers {
+				run([][]string{{su[0], su[1], cl}, {fl}})
+			}
+		}
+	}
+	// E2: the flusher's thread goes on (recycling the object it just closed) / two flushers.
+	for _, su := range setups[:3] {
+		run([][]string{{su[0], su[1], "flushold:9:9"}, {"flushold:9:0", "1:0:syn"}})
+		run([][]string{{su[0], su[1]}, {"flushold:9:9", "0:0:syn"}})
+		run([][]string{{su[0], su[1]}, {"flushold:2:9", "1:0:late1", "flushold:9:9"}})
+		if thorough {
+			run([][]string{{su[0], su[1], "1:0:late1"}, {"flushold:9:9", "flushold:9:9"}})
+			run([][]string{{su[0], su[1], "flush"}, {"flushold:9:9", "1:0:syn"}})
+		}
+	}
+	// E3: two keys, one flush visiting both connections while the other thread closes / re-creates.
+	e3 := [][][]string{
+		{{"0:0:late1", "1:0:late1", "flushold:9:9"}, {"0:0:syn"}},
+		{{"0:0:late1", "1:0:late1", "flushold:9:9"}, {"1:0:fin"}},
+		{{"0:0:late1", "1:0:late1"}, {"flushold:9:9", "0:0:syn"}},
+		{{"0:0:syn", "1:0:syn", "flushold:9:9"}, {"1:0:late1"}},
+		{{"0:0:syn", "1:0:syn", "flushold:9:9"}, {"0:0:fin"}},
+		// lastSeen exactly at T / TC: not idle
+		{{"0:0:syn", "1:0:late1", "flushold:5:5"}, {"flushold:6:6"}},
+		{{"0:0:late2", "1:0:syn", "flushold:2:2"}, {"flushold:5:5", "0:0:late3"}},
+	}
+	if !asm {
+		e3 = append(e3,
+			[][]string{{"0:0:fin", "0:1:fin", "1:0:syn"}, {"flushold:9:9"}},
+			[][]string{{"0:0:fin", "0:1:late1", "flushold:9:9"}, {"0:1:syn"}},
+			[][]string{{"0:0:late1", "0:1:late1", "flushold:2:2"}, {"flushold:9:9"}},
+		)
+	} else {
+		e3 = append(e3,
+			[][]string{{"0:0:syn", "0:0:late1", "0:0:rst"}, {"flushold:9:0", "flushold:9:0"}},
+			[][]string{{"0:0:late1", "0:0:rst", "flushold:6:0"}, {"flushold:9:9"}},
+		)
+	}
+	for _, p := range e3 {
+		run(p)
+	}
+	if dbgGen {
+		println("gen E", pkg, e.n-n0, "cases,", cuts, "program pairs cut")
+	}
+}
+
+var dbgGen = false
